@@ -566,7 +566,16 @@ class SolverActor:
                         fault = ft
                         if ft.get("persistent"):
                             self.persist_fault = ft
-        v = self.f(y)
+        try:
+            v = self.f(y)
+        except FloatingPointError as e:
+            # the objective's own numpy arithmetic (family npenv) failed: the process-wide numpy error mode is no longer
+            # the default one.  For the solver this is an objective failure like any other.
+            c.fault = "numpy_error_mode"
+            w.fired["objective_met_a_changed_numpy_error_mode"] += 1
+            w.log("eval", self.aid, "%d %s %s RAISE FloatingPointError (environment)" % (idx, phase, vhex(y)))
+            _INJECTED.append(e)
+            raise
         self.holder_before = getattr(functionValue, "value", 0.0)
         if fault is not None:
             c.fault = fault["exc"]
